@@ -65,6 +65,7 @@ class Scenario:
         self.resolvers = resolvers  # "all" or a set of "Type.field"
         self.typecfg = typecfg or {}
         self.label = label
+        self.source_events = []
         self.reset()
 
     def reset(self):
